@@ -29,6 +29,9 @@ logger = get_logger(__name__)
 # Connection timeout in seconds
 REQUEST_TIMEOUT = 30.0
 
+# Maximum size of the <META> field of a response header in bytes
+MAX_META_SIZE = 1024
+
 
 class GeminiServerProtocol(asyncio.Protocol):
     """Server-side protocol for handling Gemini and Titan requests.
@@ -262,8 +265,14 @@ class GeminiServerProtocol(asyncio.Protocol):
         )
 
         # Build response header: <STATUS><SPACE><META><CRLF>
-        header = f"{response.status} {response.meta}\r\n"
-        self.transport.write(header.encode("utf-8"))
+        # The meta must stay on the header line: no CR/LF, at most MAX_META_SIZE bytes
+        meta = response.meta.replace("\r", " ").replace("\n", " ")
+        meta_bytes = meta.encode("utf-8", errors="replace")
+        if len(meta_bytes) > MAX_META_SIZE:
+            meta_bytes = meta_bytes[:MAX_META_SIZE].decode("utf-8", errors="ignore")
+            meta_bytes = meta_bytes.encode("utf-8")
+        header = f"{response.status} ".encode() + meta_bytes + b"\r\n"
+        self.transport.write(header)
 
         # Send body if present (only for 2x success responses)
         # FIX: Handle both text (str) and binary (bytes) content
